@@ -248,7 +248,19 @@ pub trait Translator {
                 // get the entry index for the first/head block in the successor
                 let (block_entry, _) = block_indices[successor_address];
                 // check for duplicate edges
-                if control_flow_graph.edge(block_exit, block_entry).is_ok() {
+                if let Ok(edge) = control_flow_graph.edge_mut(block_exit, block_entry) {
+                    // Several ways out of this block lead to the same place
+                    // (a conditional branch to the instruction which follows
+                    // it): the edge is taken when any of the conditions holds.
+                    if let Some(existing) = edge.condition_mut() {
+                        match successor_condition {
+                            Some(condition) if *condition != *existing => {
+                                *existing = Expression::or(existing.clone(), condition.clone())?;
+                            }
+                            Some(_) => {}
+                            None => *existing = expr_const(1, 1),
+                        }
+                    }
                     continue;
                 }
                 match successor_condition {
